@@ -69,6 +69,9 @@ func (g *PGen) maybeProbe(e *Node) *Node {
 	}
 	if g.o.FP && g.r.Intn(1000) < 60 {
 		g.fpN++
+		if g.r.Chance(1, 3) {
+			return Call("sim:fpo", I(g.fpN), e) // host-registered special operator
+		}
 		return Call("sim:fp", I(g.fpN), e)
 	}
 	return e
